@@ -23,6 +23,7 @@ import (
 	"runtime"
 	"runtime/debug"
 	"sort"
+	"sync"
 	"syscall"
 	"time"
 	"unicode/utf8"
@@ -66,6 +67,10 @@ type Config struct {
 
 	// TZOffsetMin: the process's local time zone (time.Local) as minutes east of UTC.
 	TZOffsetMin int `json:"tz_offset_min,omitempty"`
+
+	// HeapBias is added to the heap figures runtime.ReadMemStats reports (a machine
+	// with more or less memory in use).
+	HeapBias uint64 `json:"heap_bias,omitempty"`
 
 	// GCOff: the Go collector runs only at GCTicks (heap growth never triggers it),
 	// so which allocations may reuse which addresses is decided by the schedule.
@@ -174,8 +179,15 @@ var (
 // package; resets run in registration (= package initialisation) order.
 func RegisterReset(f func()) { resets = append(resets, f) }
 
+// mu guards the history. The simulator runs the program on one goroutine; if
+// the code under test starts goroutines of its own (an unmodelled source, listed
+// in the instrument report) their events at least do not corrupt the recorder.
+var mu sync.Mutex
+
 func record(kind, data string, n int64) {
+	mu.Lock()
 	events = append(events, Event{Seq: len(events), Kind: kind, Data: data, N: n})
+	mu.Unlock()
 }
 
 // Run executes main under cfg and returns the recorded history. It resets the
@@ -237,6 +249,8 @@ func Run(c Config, main func()) (res Result) {
 	}()
 	<-done
 	running = false
+	mu.Lock()
+	defer mu.Unlock()
 	res.Exit = exitCode
 	res.Returned = returned
 	res.Budget = budgetHit
@@ -565,6 +579,17 @@ func permutation(n, d int) []int {
 }
 
 // ---------------------------------------------------------------- unmodelled sources
+
+// ReadMemStats: the real figures plus the schedule's bias.
+func ReadMemStats(m *runtime.MemStats) {
+	record("SRC", "memstats", 0)
+	runtime.ReadMemStats(m)
+	m.HeapAlloc += cfg.HeapBias
+	m.Alloc += cfg.HeapBias
+	m.HeapInuse += cfg.HeapBias
+	m.Sys += cfg.HeapBias
+	m.HeapSys += cfg.HeapBias
+}
 
 func Getpid() int {
 	record("SRC", "pid", 0)
